@@ -230,11 +230,11 @@ func historyFamilies(kind string, thorough bool) []*family {
 	switch kind {
 	case "address":
 		var addrs []crypto.Address
-		for k := 0; k < 4; k++ {
+		for k := 0; k < 3; k++ {
 			a, _ := crypto.AddressFromBytes(pattern(k, crypto.AddressSize))
 			addrs = append(addrs, a)
 		}
-		n := 3
+		n := 1
 		if thorough {
 			n = 24
 		}
@@ -244,7 +244,7 @@ func historyFamilies(kind string, thorough bool) []*family {
 		for _, a := range addrs {
 			out = append(out, newFamily(kind, crypto.AddressToBech32(a), 64))
 		}
-		out = append(out, newFamily(kind, strings.ToUpper(out[2].s), 64), newFamily(kind, strings.ToUpper(out[4].s), 64))
+		out = append(out, newFamily(kind, strings.ToUpper(out[2].s), 64), newFamily(kind, strings.ToUpper(out[3].s), 64))
 	case "pubkey":
 		out = append(out,
 			newFamily(kind, crypto.PubKeyToBech32(ed25519.GenPrivKeyFromSecret([]byte("c45-ed25519")).PubKey()), 200),
